@@ -480,6 +480,10 @@ FLOOR = (SOLVER, "            denominator = xp.maximum(denominator, 1e-20, out=d
 CORPUS["C04"] += [B("screening error floor taken from the total vector potential", "R04.7", FLOOR),
                   B("psi scaled by the magnitude of the applied potential", "R04.7", (SOLVER, "        old_sq_psi = xp.absolute(psi) ** 2\n", "        old_sq_psi = xp.absolute(psi) ** 2 * (1 + 0 * xp.abs(current_A_applied).max())\n"))]
 
+
+CORPUS["C15"] += [B("frame-writer failure cleaned up but not re-raised", "R15.9", (RUNNER, "            del self.time_step_group[name]\n            raise\n", "            del self.time_step_group[name]\n            return\n")),
+                  B("update errors logged and skipped in the run loop", "R15.9", (RUNNER, "                    function_result = self.function(", "                    try:\n                        pass\n                    except Exception:\n                        continue\n                    function_result = self.function("))]
+
 # ---------------------------------------------------------------------------
 # generic behaviour-preserving transformations of the anchor functions
 # ---------------------------------------------------------------------------
